@@ -89,6 +89,8 @@ where
             .map(|(p, b, &a)| if a == V::zero() { V::infinity() } else { (p - b) / a })
             .reduce(V::min)
             .unwrap();
+        // the exact bound is never negative; a negative value is rounding residue (NaN is kept)
+        let u = if u < V::zero() { V::zero() } else { u };
         let b = MArrD2::<D0, D1, V>::from_iter(p_iter.zip(&a).map(|(p, &a)| p - a * u));
         Opinion::normalized(b, u, a)
     }
@@ -115,6 +117,8 @@ where
             .map(|(p, b, &a)| if a == V::zero() { V::infinity() } else { (p - b) / a })
             .reduce(V::min)
             .unwrap();
+        // the exact bound is never negative; a negative value is rounding residue (NaN is kept)
+        let u = if u < V::zero() { V::zero() } else { u };
         let b = MArrD3::<D0, D1, D2, _>::from_iter(p_iter.zip(&a).map(|(p, &a)| p - a * u));
         Opinion::normalized(b, u, a)
     }
